@@ -45,6 +45,12 @@ def do_replay(engine, path):
     if rp.get("property") != engine.PROPERTY:
         print("HARNESS_ERROR replay file is for %s" % rp.get("property"))
         return 2
+    for h in rp.get("history") or []:
+        # what the process had done before (code under test that keeps module- or class-level state); not judged
+        try:
+            runner.execute_scenario(engine, h)
+        except Exception:
+            pass
     res = runner.execute_scenario(engine, rp["scenario"], keep_trace=True)
     print("REPLAY verdict=%s class=%s digest=%s" % (res.verdict, res.vclass, res.digest))
     if res.detail:
@@ -115,16 +121,45 @@ def selftest_determinism(prop, tier, digests, nsample):
     return r
 
 
-def minimise_and_write(engine, viol, known_entries, budget_n):
+def _find_history(engine, viols, vclass, seed, tier, depth=48):
+    """(violation, minimal list of preceding scenarios) such that the violation's scenario reproduces its class when
+    executed after them in one fresh process; None if there is none among the `depth` preceding runs."""
+    from sim.core import runner, shrink
+
+    for v in viols:
+        k = v["k"]
+        try:
+            hist = [runner.scenario_of(engine, seed, j, tier) for j in range(max(0, k - depth), k)]
+        except Exception:
+            continue
+        if not hist:
+            continue
+
+        def test(h, v=v):
+            try:
+                r = runner.execute_isolated(engine, v["scenario"], h)
+            except Exception:
+                return False
+            return r.verdict == "VIOLATION" and r.vclass == vclass
+
+        if not test(hist):
+            continue
+        small = shrink.ddmin_list(hist, test, shrink.Budget(120))
+        return v, small
+    return None
+
+
+def minimise_and_write(engine, viol, known_entries, budget_n, history=None):
     from sim.core import findings, runner, shrink
     from sim.core.trace import canon, run_seed
 
     scn = viol["scenario"]
     vclass = viol["vclass"]
+    history = list(history or [])
 
     def test(cand):
         try:
-            r = runner.execute_isolated(engine, cand)
+            r = runner.execute_isolated(engine, cand, history)
         except Exception:
             return False
         if r.verdict != "VIOLATION" or r.vclass != vclass:
@@ -141,7 +176,7 @@ def minimise_and_write(engine, viol, known_entries, budget_n):
             small = scn
         if not test(small):
             small = scn
-    res = runner.execute_isolated(engine, small)
+    res = runner.execute_isolated(engine, small, history)
     if res.verdict != "VIOLATION":
         # seen in a worker, but not when the scenario is executed on its own: state leaked from an earlier run of
         # that worker into this one (the code under test keeps module-level state?) - not a replayable violation
@@ -157,6 +192,7 @@ def minimise_and_write(engine, viol, known_entries, budget_n):
             "generator_seed": rs, "expected_class": res.vclass, "expected_digest": res.digest,
             "detail": res.detail, "facts": res.facts,
             "original_size": orig_size, "minimised_size": len(canon(small)), "scenario": small,
+            "history": history,
         }, f, indent=1, sort_keys=True, default=str)
     # verify in a fresh interpreter
     envv = dict(os.environ)
@@ -240,20 +276,29 @@ def main(argv=None):
         path = ok = res = None
         last_err = None
         cands = classes[vclass][:1]
-        if len(classes[vclass]) > 1:
-            # a violation that only exists through state leaked between runs of one worker cannot be replayed: look for
-            # an instance of the class that reproduces when its scenario is executed on its own
-            for v in classes[vclass][:40]:
-                try:
-                    r0 = runner.execute_isolated(engine, v["scenario"])
-                except Exception:
-                    continue
-                if r0.verdict == "VIOLATION" and r0.vclass == vclass:
-                    cands = [v]
-                    break
+        history = None
+        # a violation may exist only through state that an earlier run of the same worker left behind in the code under
+        # test (module- or class-level caches): look for an instance of the class that reproduces when its scenario is
+        # executed on its own ...
+        found = False
+        for v in classes[vclass][:40]:
+            try:
+                r0 = runner.execute_isolated(engine, v["scenario"])
+            except Exception:
+                continue
+            if r0.verdict == "VIOLATION" and r0.vclass == vclass:
+                cands = [v]
+                found = True
+                break
+        if not found and getattr(engine, "HISTORY_REPLAY", True):
+            # ... and otherwise for one that reproduces after the scenarios that preceded it in the batch, executed in
+            # the same fresh process; the history is then minimised and becomes part of the replay file
+            history = _find_history(engine, classes[vclass][:6], vclass, seed, args.tier)
+            if history is not None:
+                cands, history = [history[0]], history[1]
         for v in cands:
             try:
-                path, ok, res = minimise_and_write(engine, v, known_entries, tiercfg.get("shrink_budget", 300))
+                path, ok, res = minimise_and_write(engine, v, known_entries, tiercfg.get("shrink_budget", 300), history)
                 last_err = None
                 break
             except Exception as e:
